@@ -1139,7 +1139,11 @@ impl TransactionBuilder {
         let fee_after = min_fee(&self_copy)?;
         let aligned_fee_after = self.fee_request.get_new_fee(fee_after);
 
-        aligned_fee_after.checked_sub(&aligned_fee_before)
+        // an input that is also an explicit reference input the configuration de-duplicates can make the
+        // transaction smaller: it costs nothing then
+        Ok(aligned_fee_after
+            .checked_sub(&aligned_fee_before)
+            .unwrap_or(Coin::zero()))
     }
 
     /// `fee_for_input` for a UTxO offered to coin selection: added the way selection adds it, so that a
@@ -1155,7 +1159,9 @@ impl TransactionBuilder {
         let fee_after = min_fee(&self_copy)?;
         let aligned_fee_after = self.fee_request.get_new_fee(fee_after);
 
-        aligned_fee_after.checked_sub(&aligned_fee_before)
+        Ok(aligned_fee_after
+            .checked_sub(&aligned_fee_before)
+            .unwrap_or(Coin::zero()))
     }
 
     /// Add explicit output via a TransactionOutput object
